@@ -1323,6 +1323,8 @@ fn explore_api(kind: &str, a: &[u64], strs: &[String], bytes: &[u8]) -> String {
                 _ => {
                     ls.prefix = Some(api::LsAttributePrefix {
                         sr_prefix_sids: vec![api::LsAttributePrefixSid { algorithm: g(1) as u32, flags: g(2) as u32, sid: 100 }],
+                        // (api.proto: an algorithm-0 entry also populates the legacy singular field)
+                        sr_prefix_sid: if g(1) == 0 { 100 } else { 0 },
                         ..Default::default()
                     })
                 }
